@@ -90,7 +90,18 @@ pub fn add(a: &Fields, b: &Fields) -> Result<Fields, DErr> {
     if t.abs() >= LIMIT_NS {
         return Err(DErr::Range);
     }
-    Ok(from_total(t, largest))
+    created(from_total(t, largest))
+}
+
+/// CreateTemporalDuration: the balanced fields become doubles (nearest), and it is those doubles that
+/// must form a valid duration - a total within half a second of the limit, balanced to a sub-second
+/// unit, rounds to a field that is at the limit.
+pub fn created(f: Fields) -> Result<Fields, DErr> {
+    if is_valid(&f) {
+        Ok(f)
+    } else {
+        Err(DErr::Range)
+    }
 }
 
 pub fn negate(a: &Fields) -> Fields {
@@ -118,7 +129,7 @@ pub fn round(a: &Fields, largest: usize, smallest: usize, inc: u32, mode: Mode) 
     if r.abs() >= LIMIT_NS {
         return Err(DErr::Range);
     }
-    Ok(from_total(r, largest))
+    created(from_total(r, largest))
 }
 
 /// Duration.total(unit) without relativeTo as an exact rational (numerator, denominator).
